@@ -135,7 +135,10 @@ struct Ex {
     if (auto *D = dyn_cast<DeclRefExpr>(E)) {
       auto *VD = D->getDecl();
       if (auto *BD = dyn_cast<BindingDecl>(VD)) if (BD->getBinding()) return path(BD->getBinding());   // auto &[a, b] = x;  a is x.<field>
-      if (isa<FunctionDecl>(VD)) return "fn:" + fq(cast<FunctionDecl>(VD));
+      if (auto *RF = dyn_cast<FunctionDecl>(VD)) {   // a reference to a specialisation of a function template names that specialisation: fn:<pattern>@<instantiation>
+        if (RF->isFunctionTemplateSpecialization()) return "fn:" + fq(RF) + "@" + instName(RF);
+        return "fn:" + fq(RF);
+      }
       std::string k = isa<ParmVarDecl>(VD) ? "param:" : (isa<VarDecl>(VD) ? (cast<VarDecl>(VD)->hasLocalStorage() ? "local:" : "global:") : "decl:");
       if (D->refersToEnclosingVariableOrCapture()) k = "capture:";
       else if (auto *V = dyn_cast<VarDecl>(VD)) if (V->isInitCapture()) k = "capture:";
